@@ -1,4 +1,90 @@
-import CosetModel.Api
+/-
+  C05 — AEAD additional data is exactly RFC 8152 Enc_structure.
+-/
+import CosetProofs.Structures
+import CosetModel.Builders
 namespace Coset.Props.C05
+open Coset Coset.Cbor Coset.Spec
+
+theorem contexts : EncryptionContext.text .coseEncrypt = ctxEncrypt ∧ EncryptionContext.text .coseEncrypt0 = ctxEncrypt0 ∧
+    EncryptionContext.text .encRecipient = ctxEncRecipient ∧ EncryptionContext.text .macRecipient = ctxMacRecipient ∧
+    EncryptionContext.text .recRecipient = ctxRecRecipient := by decide
+theorem contexts_distinct : [ctxEncrypt, ctxEncrypt0, ctxEncRecipient, ctxMacRecipient, ctxRecRecipient].Nodup := by decide
+
+/-- C05 core: `[context, protected, external_aad]`, deterministic encoding. -/
+theorem enc_structure (ctx : EncryptionContext) (prot : ProtectedHeader) (aad b : Bytes)
+    (hb : ProtectedHeader.cborBstr prot = .ok (.bytes b)) :
+    encStructureData ctx prot aad = .ok (specStruct ctx.text [b, aad]) := encStructure_spec ctx prot aad b hb
+
+/-- COSE_Encrypt decrypts with "Encrypt", COSE_Encrypt0 with "Encrypt0"; the closure gets (ciphertext, Enc_structure). -/
+theorem encrypt_decrypt {ρ : Type} (m : CoseEncrypt) (aad b ct : Bytes) (g : Bytes → Bytes → ρ)
+    (hb : ProtectedHeader.cborBstr m.protected_ = .ok (.bytes b)) (hc : m.ciphertext = some ct) :
+    m.decrypt aad g = .ok (g ct (specStruct ctxEncrypt [b, aad])) := by
+  simp [CoseEncrypt.decrypt, hc, enc_structure .coseEncrypt m.protected_ aad b hb, contexts.1]
+
+theorem encrypt0_decrypt {ρ : Type} (m : CoseEncrypt0) (aad b ct : Bytes) (g : Bytes → Bytes → ρ)
+    (hb : ProtectedHeader.cborBstr m.protected_ = .ok (.bytes b)) (hc : m.ciphertext = some ct) :
+    m.decrypt aad g = .ok (g ct (specStruct ctxEncrypt0 [b, aad])) := by
+  simp [CoseEncrypt0.decrypt, hc, enc_structure .coseEncrypt0 m.protected_ aad b hb, contexts.2.1]
+
+/-- a recipient uses the caller-selected recipient context. -/
+theorem recipient_decrypt {ρ : Type} (m : CoseRecipient) (ctx : EncryptionContext) (aad b ct : Bytes) (g : Bytes → Bytes → ρ)
+    (hb : ProtectedHeader.cborBstr m.protected_ = .ok (.bytes b)) (hc : m.ciphertext = some ct) (hr : ctx.isRecipient = true) :
+    m.decrypt ctx aad g = .ok (g ct (specStruct ctx.text [b, aad])) := by
+  simp [CoseRecipient.decrypt, hc, hr, enc_structure ctx m.protected_ aad b hb]
+
+/-- recipient operations refuse (documented panic) a non-recipient context; decryption without a ciphertext is refused. -/
+theorem recipient_guard {ρ : Type} (m : CoseRecipient) (ctx : EncryptionContext) (aad pt : Bytes) (g : Bytes → Bytes → ρ)
+    (f : Bytes → Bytes → Bytes) (ft : Bytes → Bytes → Except Nat Bytes) (hr : ctx.isRecipient = false) :
+    (∃ s, m.decrypt ctx aad g = .panic s) ∧ (∃ s, RecipientOp.apply m (.createCiphertext ctx pt aad f) = .panic s) ∧
+    (∃ s, RecipientOp.apply m (.tryCreateCiphertext ctx pt aad ft) = .panic s) := by
+  refine ⟨?_, ?_, ?_⟩
+  · cases hc : m.ciphertext <;> simp [CoseRecipient.decrypt, hc, hr]
+  · simp [RecipientOp.apply, recipientAad, hr, Step.ofRes]
+  · simp [RecipientOp.apply, recipientAad, hr, Step.ofRes]
+
+theorem recipient_contexts (ctx : EncryptionContext) :
+    ctx.isRecipient = true ↔ (ctx = .encRecipient ∨ ctx = .macRecipient ∨ ctx = .recRecipient) := by
+  cases ctx <;> simp [EncryptionContext.isRecipient]
+
+theorem needs_ciphertext {ρ : Type} (m : CoseEncrypt) (m0 : CoseEncrypt0) (r : CoseRecipient) (ctx : EncryptionContext) (aad : Bytes)
+    (g : Bytes → Bytes → ρ) (h : m.ciphertext = none) (h0 : m0.ciphertext = none) (hr : r.ciphertext = none) :
+    m.decrypt aad g = .panic .unwrapNone ∧ m0.decrypt aad g = .panic .unwrapNone ∧ r.decrypt ctx aad g = .panic .unwrapNone := by
+  simp [CoseEncrypt.decrypt, CoseEncrypt0.decrypt, CoseRecipient.decrypt, h, h0, hr]
+
+/-- creating a ciphertext hands (plaintext, Enc_structure) to the caller's cipher. -/
+theorem create_passes (m : CoseEncrypt) (pt aad b : Bytes) (f : Bytes → Bytes → Bytes)
+    (hb : ProtectedHeader.cborBstr m.protected_ = .ok (.bytes b)) :
+    EncryptOp.apply m (.createCiphertext pt aad f) = .next { m with ciphertext := some (f pt (specStruct ctxEncrypt [b, aad])) } := by
+  simp [EncryptOp.apply, enc_structure .coseEncrypt m.protected_ aad b hb, Step.ofRes, contexts.1]
+
+theorem create_passes0 (m : CoseEncrypt0) (pt aad b : Bytes) (f : Bytes → Bytes → Bytes)
+    (hb : ProtectedHeader.cborBstr m.protected_ = .ok (.bytes b)) :
+    Encrypt0Op.apply m (.createCiphertext pt aad f) = .next { m with ciphertext := some (f pt (specStruct ctxEncrypt0 [b, aad])) } := by
+  simp [Encrypt0Op.apply, enc_structure .coseEncrypt0 m.protected_ aad b hb, Step.ofRes, contexts.2.1]
+
+theorem injective (c1 c2 : EncryptionContext) (xs1 xs2 : List Bytes)
+    (hx1 : xs1.length + 1 < 2 ^ 64 ∧ ∀ x ∈ xs1, x.length < 2 ^ 64) (hx2 : xs2.length + 1 < 2 ^ 64 ∧ ∀ x ∈ xs2, x.length < 2 ^ 64)
+    (h : specStruct c1.text xs1 = specStruct c2.text xs2) : c1 = c2 ∧ xs1 = xs2 := by
+  have v : ∀ c : EncryptionContext, Utf8.valid c.text = true ∧ c.text.length < 2 ^ 64 := by intro c; cases c <;> decide
+  obtain ⟨hc, hx⟩ := specStruct_injective _ _ _ _ (v c1) (v c2) hx1 hx2 h
+  refine ⟨?_, hx⟩
+  cases c1 <;> cases c2 <;> first | rfl | (exact absurd hc (by decide))
+
+example : encStructureData .coseEncrypt0 (.mk (some [0xa1, 0x01, 0x01]) Header.default) [9] =
+    .ok [0x83, 0x68, 69, 110, 99, 114, 121, 112, 116, 48, 0x43, 0xa1, 0x01, 0x01, 0x41, 9] := by decide
+
+#print axioms contexts
+#print axioms contexts_distinct
+#print axioms enc_structure
+#print axioms encrypt_decrypt
+#print axioms encrypt0_decrypt
+#print axioms recipient_decrypt
+#print axioms recipient_guard
+#print axioms recipient_contexts
+#print axioms needs_ciphertext
+#print axioms create_passes
+#print axioms create_passes0
+#print axioms injective
 
 end Coset.Props.C05
